@@ -219,6 +219,11 @@ func (o *Operator) HandleDeploy(ctx context.Context, req *workerpb.DeployOperato
 	o.sourceRunners = newUpstreams(req.SourceRunnerIds)
 	o.sink = sink
 
+	// A checkpoint that was being aligned for the previous assembly can never
+	// complete. Drop it so that the first barrier of the new assembly starts a
+	// fresh one instead of being rejected for its checkpoint ID.
+	o.checkpoint = nil
+
 	if err := o.status.DidLoad(); err != nil {
 		return fmt.Errorf("invalid status transition: %w", err)
 	}
